@@ -162,6 +162,84 @@ Proof.
 Qed.
 End Routing.
 
+(* ---------- NULL measure values ---------- *)
+Section RoutingNull.
+Variable tr : Z -> Z.
+Notation key := (Z * Z)%type.
+
+Lemma somes_sum {A} (g : A -> list Z) (l : list A) : zsum (somes (map (fun k => osum (g k)) l)) = zsum (map (fun k => zsum (g k)) l).
+Proof.
+  induction l as [|k l IH]; [reflexivity|]. cbn [map somes flat_map]. fold (somes (map (fun k0 => osum (g k0)) l)).
+  destruct (g k) as [|z zs] eqn:E; cbn [osum app]; unfold zsum in *; cbn [fold_right] in *; [rewrite IH; reflexivity|].
+  rewrite <- IH. cbn [fold_right]. reflexivity.
+Qed.
+Lemma somes_nil {A} (g : A -> list Z) (l : list A) : somes (map (fun k => osum (g k)) l) = [] <-> forall k, In k l -> g k = [].
+Proof.
+  induction l as [|k l IH]; [split; [intros _ x []|reflexivity]|]. cbn [map somes flat_map]. fold (somes (map (fun k0 => osum (g k0)) l)).
+  destruct (g k) as [|z zs] eqn:E; cbn [osum app].
+  - rewrite IH. split; [intros H x [<-|Hx]; [exact E|apply H, Hx]|intros H x Hx; apply H; right; exact Hx].
+  - split; [discriminate|]. intros H. specialize (H k (or_introl eq_refl)). congruence.
+Qed.
+Lemma osum_eq xs ys : (xs = [] <-> ys = []) -> zsum xs = zsum ys -> osum xs = osum ys.
+Proof.
+  intros He Hs. destruct xs as [|x xs], ys as [|y ys]; cbn [osum]; try reflexivity.
+  - destruct He as [He _]. specialize (He eq_refl). discriminate.
+  - destruct He as [_ He]. specialize (He eq_refl). discriminate.
+  - rewrite Hs. reflexivity.
+Qed.
+
+Lemma nkeys_cover (b : list nrow) y : In y (non_null_rows b) -> In (bkey tr y) (first_occ (map (nkey tr) b)).
+Proof.
+  intros Hy. unfold non_null_rows in Hy. apply in_map_iff in Hy as [x [<- Hx]]. apply filter_In in Hx as [Hx _].
+  apply (proj2 (first_occ_In tr _ _)). apply in_map_iff. exists x. split; [reflexivity|exact Hx].
+Qed.
+
+Lemma routed_n_shape (sel : key -> bool) (b : list nrow) (proj : pnrow -> option Z) (g : key -> list Z) :
+  (forall k, proj {| pn_bucket := fst k; pn_dim := snd k; pn_sum := osum (vals_at tr (non_null_rows b) k);
+                     pn_cnt := Z.of_nat (length (vals_at tr (non_null_rows b) k)) |} = osum (g k)) ->
+  map proj (filter (fun x => sel (pnkey x)) (materialize_n tr b)) = map (fun k => osum (g k)) (filter sel (first_occ (map (nkey tr) b))).
+Proof.
+  intros Hp. unfold materialize_n. rewrite (filter_map_comm _ (fun x => sel (pnkey x))), map_map.
+  erewrite filter_ext; [|intros [k1 k2]; reflexivity]. apply map_ext. intros k. apply Hp.
+Qed.
+
+(* SUM with NULLs: the routed SUM over the selected rollup rows (NULL bucket sums ignored; NULL if nothing is left) = the SUM of
+   the non-NULL values of the selected base rows (NULL if there is none) *)
+Theorem routed_sum_null_ok (sel : key -> bool) (b : list nrow) : routed_sum_n sel (materialize_n tr b) = base_sum_n tr sel b.
+Proof.
+  unfold routed_sum_n, base_sum_n.
+  rewrite (routed_n_shape sel b pn_sum (vals_at tr (non_null_rows b))) by (intros k; reflexivity).
+  set (b' := non_null_rows b). set (ks := first_occ (map (nkey tr) b)).
+  apply osum_eq.
+  - rewrite somes_nil. unfold base_vals. split.
+    + intros H. destruct (filter (fun y => sel (bkey tr y)) b') as [|y l] eqn:E; [reflexivity|]. exfalso.
+      assert (Hy : In y (filter (fun y => sel (bkey tr y)) b')) by (rewrite E; left; reflexivity). apply filter_In in Hy as [Hy Hs].
+      assert (Hk : In (bkey tr y) (filter sel ks)) by (apply filter_In; split; [apply nkeys_cover, Hy|exact Hs]).
+      specialize (H _ Hk). unfold vals_at, at_b in H.
+      assert (Hin : In y (filter (fun x => key_eqb (bkey tr x) (bkey tr y)) b')) by (apply filter_In; split; [exact Hy|destruct (key_eqb_spec (bkey tr y) (bkey tr y)); congruence]).
+      destruct (filter (fun x => key_eqb (bkey tr x) (bkey tr y)) b'); [destruct Hin|discriminate].
+    + intros H k Hk. apply filter_In in Hk as [_ Hs]. unfold vals_at, at_b.
+      destruct (filter (fun x => key_eqb (bkey tr x) k) b') as [|y l] eqn:E; [reflexivity|]. exfalso.
+      assert (Hy : In y (filter (fun x => key_eqb (bkey tr x) k) b')) by (rewrite E; left; reflexivity). apply filter_In in Hy as [Hy Hk].
+      assert (Hin : In y (filter (fun y => sel (bkey tr y)) b')).
+      { apply filter_In. split; [exact Hy|]. destruct (key_eqb_spec (bkey tr y) k) as [->|]; [exact Hs|discriminate]. }
+      apply map_eq_nil in H. rewrite H in Hin. destruct Hin.
+  - rewrite somes_sum. unfold base_vals. rewrite !filtered_sum.
+    apply (over_keys tr b_v sel ks b'); [apply first_occ_NoDup|apply nkeys_cover].
+Qed.
+(* COUNT(v) with NULLs: the SUM of the stored counts = the number of non-NULL values among the selected base rows *)
+Theorem routed_count_null_ok (sel : key -> bool) (b : list nrow) :
+  routed_count_n sel (materialize_n tr b) = Z.of_nat (length (base_vals tr sel (non_null_rows b))).
+Proof.
+  unfold routed_count_n, base_vals. rewrite filtered_sum. unfold materialize_n. rewrite map_map.
+  set (b' := non_null_rows b). set (ks := first_occ (map (nkey tr) b)).
+  transitivity (zsum (map (fun k => if sel k then zsum (map (fun _ => 1) (at_b tr b' k)) else 0) ks)).
+  - f_equal. apply map_ext. intros [k1 k2]. cbn [pnkey pn_bucket pn_dim pn_cnt fst snd]. unfold vals_at. rewrite map_length, length_as_sum. reflexivity.
+  - rewrite (over_keys tr (fun _ => 1) sel ks b' (first_occ_NoDup _) (nkeys_cover b)).
+    rewrite <- filtered_sum, map_length, length_as_sum. reflexivity.
+Qed.
+End RoutingNull.
+
 (* ---------- rolling the time bucket up to a coarser nested granularity ---------- *)
 (* selecting by the re-truncated BUCKET (what the routed query groups by) = selecting by the truncated timestamp *)
 Theorem rollup_granularity q p (g : Z -> Z -> bool) (b : list brow) : nested q p ->
